@@ -4,6 +4,7 @@
 //
 // case:  csim <tcp|tls> <opts> <events>
 //   opts   : k=v,k=v  with inv=0|1 (invalid handler registered) chunk=0|1 (chunk handler) period=0|1 (reconnect timer)
+//            reclose=0|1 (the disconnected callback calls close() on the client)
 //            port=80|http maxb=n maxk=n
 //   events : ';' separated
 //     O   application calls connect(host, port, period)      Or  ... and the name does not resolve
@@ -46,7 +47,7 @@ static boost::system::error_code ec_of(std::string const& s)
   return e::fault;
 }
 
-struct Opts { bool inv{false}, chunk{false}, period{false}; std::string port{"80"}; size_t maxb{1048576}, maxk{1048576}; };
+struct Opts { bool inv{false}, chunk{false}, period{false}, reclose{false}; std::string port{"80"}; size_t maxb{1048576}, maxk{1048576}; };
 
 template <typename F> static std::string fields_digest(F const& headers)
 {
@@ -90,7 +91,12 @@ struct CSim
     if (!o.chunk) client->http_chunk_handler_ = nullptr;
     if (o.inv) client->invalid_response_event([this](typename Client::http_response const&, std::string const&) { say("invalid"); });
     client->connected_event([this]() { say("connected"); });
-    client->disconnected_event([this]() { say("disconnected"); });
+    client->disconnected_event([this]()
+      {
+        say("disconnected");
+        // an application that gives the client up as soon as it is told of a disconnection
+        if (o.reclose && client) { say("app-close"); client->close(); }
+      });
     client->message_sent_event([this]() { say("sent"); });
   }
 
@@ -235,6 +241,7 @@ struct CSim
       if (key == "inv") o.inv = v == "1";
       else if (key == "chunk") o.chunk = v == "1";
       else if (key == "period") o.period = v == "1";
+      else if (key == "reclose") o.reclose = v == "1";
       else if (key == "port") o.port = v;
       else if (key == "maxb") o.maxb = std::stoul(v);
       else if (key == "maxk") o.maxk = std::stoul(v);
